@@ -51,13 +51,34 @@ def final_reply(op) -> Optional[bytes]:
     return None
 
 
+def reads_per_write(op) -> List[bytes]:
+    """What the application read after each of its writes, joined (a client may fetch one reply with several
+    reads: header then body, or a loop)."""
+    tr = getattr(op, "trace", None) or []
+    out: List[bytes] = []
+    seen_w = False
+    for k, d in tr:
+        if k == "w":
+            out.append(b"")
+            seen_w = True
+        elif seen_w:
+            out[-1] += d
+    return out
+
+
 def cnt(c: Dict[str, int], k: str, n: int = 1):
     c[k] = c.get(k, 0) + n
 
 
 def all_ops(run):
     for cl in run.clients:
+        dirty: Dict[Any, bool] = {}
         for op in cl.ops:
+            cid = getattr(op, "conn_cid", None)
+            # had an earlier exchange on this connection been faulty (so that unread bytes may be lying around)?
+            op.prior_fault = bool(dirty.get(cid))
+            if any(ex.mode != "ok" for ex in op.exchanges):
+                dirty[cid] = True
             if op.kind not in LIFECYCLE:
                 yield cl, op
 
@@ -77,7 +98,9 @@ def login_read(op) -> Optional[bytes]:
         return None
     if op.app_reads:
         return op.app_reads[0]
-    if op.exchanges and op.exchanges[0].mode == "ok":
+    # (a client that does not read through StreamReader: what the device sent in one piece is what it got, unless
+    #  leftovers of an earlier faulty exchange may have been taken for the login reply)
+    if op.exchanges and op.exchanges[0].mode == "ok" and not getattr(op, "prior_fault", False):
         return op.exchanges[0].sent
     return None
 
@@ -111,7 +134,9 @@ def judge_c01(scn, run) -> Tuple[List[Viol], Dict[str, int]]:
     # anything written while connecting, disconnecting or leaving the context must be a whole signed frame too
     for cl in run.clients:
         for op in cl.ops:
-            if op.kind in LIFECYCLE:
+            # (judged on what the application handed to its writer; bytes a transport of a non-stream client flushes
+            #  while closing are the tail of an earlier frame, not a frame of their own)
+            if op.kind in LIFECYCLE and cl.app_writes_seen:
                 for u in op.units:
                     cnt(c, "judged")
                     for p in frames.wellformed_problems(u):
@@ -187,8 +212,8 @@ def name_class(name: str) -> str:
     return "reject"          # fewer than two characters is "too short", whatever its encoded size
 
 
-def floor_minute_seconds(s: int) -> int:
-    return (s // 60) * 60
+def floor_minute_seconds(s) -> int:
+    return int(s // 60) * 60
 
 
 def expected_args(cl, op, run) -> Tuple[str, Optional[List[Dict[str, Any]]]]:
@@ -488,10 +513,11 @@ def judge_c08(scn, run) -> Tuple[List[Viol], Dict[str, int]]:
     for cl, op in all_ops(run):
         if op.kind not in STATE_QUERIES + ("login",):
             continue
-        if any(ex.mode != "ok" for ex in op.exchanges) or len(op.exchanges) != len(op.app_reads):
+        rpw = reads_per_write(op)
+        if any(ex.mode != "ok" for ex in op.exchanges) or len(op.exchanges) != len(rpw):
             cnt(c, "grey:faulty-reply")
             continue
-        if any(ex.sent != rd for ex, rd in zip(op.exchanges, op.app_reads)):
+        if any(ex.sent != rd for ex, rd in zip(op.exchanges, rpw)):
             cnt(c, "grey:reply-not-read-whole")
             continue
         if op.outcome[0] == "ok" and op.outcome[1] == "unavailable":
@@ -875,8 +901,9 @@ def judge_c10(scn, run) -> Tuple[List[Viol], Dict[str, int]]:
                         {"args": op.args, "rec": (u[85], u[87:91], u[91:95]), "wall": (op.wall_lo, op.wall_hi)})
         if op.kind != "get_schedules" or op.outcome is None:
             continue
+        rpw = reads_per_write(op)
         if len(op.exchanges) == 2 and op.exchanges[0].mode == "ok" and op.exchanges[1].mode == "eof" \
-                and len(op.app_reads) == 2 and op.app_reads[1] == b"":
+                and len(rpw) == 2 and rpw[1] == b"":
             # "an empty reply yields no schedules": whatever is returned must hold none
             cnt(c, "judged-empty-reply")
             if op.outcome[0] == "ok":
@@ -885,8 +912,8 @@ def judge_c10(scn, run) -> Tuple[List[Viol], Dict[str, int]]:
             else:
                 cnt(c, "grey:empty-reply-raised")      # C10 does not say which error, if any, a hang-up may raise
             continue
-        if any(ex.mode != "ok" for ex in op.exchanges) or len(op.exchanges) < 2 or len(op.app_reads) < 2 \
-                or op.app_reads[-1] != op.exchanges[-1].sent:
+        if any(ex.mode != "ok" for ex in op.exchanges) or len(op.exchanges) < 2 or len(rpw) < 2 \
+                or rpw[-1] != op.exchanges[-1].sent:
             cnt(c, "grey:faulty-reply")
             continue
         recs = [bytes.fromhex(r) for r in op.exchanges[-1].snapshot["records"]]
